@@ -49,6 +49,8 @@ def text_of(obj) -> str:
         obj.export(buf, '')
     elif isinstance(obj, Keyvalues):
         return repr(kv_dump(obj))
+    elif isinstance(obj, EntityFixup):
+        obj.export(buf, '')
     else:
         raise AssertionError(type(obj))
     return buf.getvalue()
@@ -168,6 +170,15 @@ def copies_of(vmf: VMF, other: VMF):
     for i, e in enumerate(vmf.entities):
         yield f'entity[{i}]', e, lambda e=e: e.copy()
         yield f'entity[{i}]->other', e, lambda e=e: e.copy(vmf_file=other)
+        if i < 2:
+            # the generic protocols (these duplicate the map the object belongs to as well)
+            yield f'entity[{i}]:deepcopy', e, lambda e=e: copy.deepcopy(e)
+            yield f'entity[{i}]:pickle', e, lambda e=e: pickle.loads(pickle.dumps(e))
+        if len(e.fixup):
+            fx = e.fixup
+            yield f'entity[{i}].fixup:copy.copy', fx, lambda fx=fx: copy.copy(fx)
+            yield f'entity[{i}].fixup:deepcopy', fx, lambda fx=fx: copy.deepcopy(fx)
+            yield f'entity[{i}].fixup:pickle', fx, lambda fx=fx: pickle.loads(pickle.dumps(fx))
         for j, o in enumerate(e.outputs):
             yield f'entity[{i}].output[{j}]', o, lambda o=o: o.copy()
             yield f'entity[{i}].output[{j}]:copy.copy', o, lambda o=o: copy.copy(o)
@@ -178,6 +189,9 @@ def copies_of(vmf: VMF, other: VMF):
     for i, s in enumerate(vmf.brushes):
         yield f'brush[{i}]', s, lambda s=s: s.copy()
         yield f'brush[{i}]->other', s, lambda s=s: s.copy(vmf_file=other)
+        if i < 1:
+            yield f'brush[{i}]:deepcopy', s, lambda s=s: copy.deepcopy(s)
+            yield f'brush[{i}]:pickle', s, lambda s=s: pickle.loads(pickle.dumps(s))
         for j, f in enumerate(s.sides):
             if j < 2 or f.is_disp or f.strata_points is not None:
                 yield f'brush[{i}].side[{j}]', f, lambda f=f: f.copy()
